@@ -16,7 +16,10 @@ for d in sorted(glob.glob(V + "/seeded/*/")):
         continue
     meta = json.load(open(d + "meta.json"))
     props = [prop] + [p for p in meta.get("also_check", []) if p != prop]
-    subprocess.run(["git", "-C", REPO, "apply", d + "patch.diff"], check=True)
+    if subprocess.run(["git", "-C", REPO, "apply", d + "patch.diff"]).returncode != 0:
+        res[sid] = "patch does not apply to this repository state"
+        print(sid, res[sid], flush=True)
+        continue
     try:
         out = {}
         for p in props:
